@@ -42,9 +42,10 @@ class Flag(enum.Enum):  # member names that YAML readers take for something else
 
 ENUMS = {"Color": Color, "Flag": Flag}
 LIT = ["a", 1, True, None, "null"]
+LIT2 = [1, 0, "b"]  # no bool / float member: True, False, 1.0 and 0.0 are equal to members without being members
 RSTR = r"^[a-z]{2,4}$"
 
-SCALAR_LEAVES = ["str", "int", "float", "bool", "enum:Color", "enum:Flag", "lit", "posint", "nnfloat", "unit", "rstr"]
+SCALAR_LEAVES = ["str", "int", "float", "bool", "enum:Color", "enum:Flag", "lit", "lit2", "posint", "nnfloat", "unit", "rstr"]
 REGISTERED_LEAVES = ["decimal", "complex", "uuid", "timedelta", "bytes", "range", "ppath"]
 HASHABLE_LEAVES = ["str", "int", "bool", "enum:Color", "posint"]
 
@@ -270,6 +271,8 @@ def _to_type(shape, key):
         t = ENUMS[shape[1]]
     elif k == "lit":
         t = Literal["a", 1, True, None, "null"]
+    elif k == "lit2":
+        t = Literal[1, 0, "b"]
     elif k in ("posint", "nnfloat", "unit", "rstr"):
         t = _restricted()[k]
     elif k == "decimal":
@@ -358,6 +361,8 @@ def conforming(shape, special=False, for_default=False):
         return st.sampled_from(list(ENUMS[shape[1]].__members__))
     if k == "lit":
         return st.sampled_from(LIT)
+    if k == "lit2":
+        return st.sampled_from(LIT2)
     if k == "posint":
         return st.one_of(st.integers(1, 5), st.integers(1, 2**40))
     if k == "nnfloat":
@@ -450,7 +455,7 @@ def expected(shape, v):
     from jsonargparse import Namespace
 
     k = shape[0]
-    if k in ("str", "bool", "lit", "rstr"):
+    if k in ("str", "bool", "lit", "lit2", "rstr"):
         return v
     if k in ("int", "posint"):
         return v
@@ -531,6 +536,8 @@ def conforms(shape, v):
         return type(v) is ENUMS[shape[1]]
     if k == "lit":
         return any(v == x and type(v) is type(x) for x in LIT)
+    if k == "lit2":
+        return any(v == x and type(v) is type(x) for x in LIT2)
     if k == "posint":
         return isinstance(v, int) and type(v) is not bool and v > 0
     if k == "nnfloat":
@@ -609,6 +616,7 @@ def near_miss(shape):
         "str": [1, 1.5, True, [1], {"a": 1}],
         "enum": ["purple", 1, 7, "RED", True, ["red"]],
         "lit": ["b", 2, False, 1.5, ["a"], "None"],
+        "lit2": [True, False, 1.0, 0.0, 2, "c", [1], True, 1.0],
         "rstr": ["A", "abcde", "a1", "", 5, "ab cd"],
     }
     if k in wrong:
